@@ -4,8 +4,10 @@ import (
 	"context"
 	"errors"
 	"fmt"
+	"github.com/bartossh/Computantis/src/transformers"
 	"net"
 	"time"
+	"verifharness/svc"
 
 	"github.com/bartossh/Computantis/src/accountant"
 	"github.com/bartossh/Computantis/src/cache"
@@ -54,6 +56,11 @@ func (p *streamPeer) LoadDag(_ *emptypb.Empty, stream protobufcompiled.GossipAPI
 // syncJoiner starts a fresh node and lets it sync through the real client from a peer configured as given. It returns the
 // joiner's ledger (still open), whether the sync call returned within 30 s, and a function that releases everything.
 func syncJoiner(p *streamPeer) (book *accountant.AccountingBook, returned bool, release func()) {
+	return syncJoinerFrom(p)
+}
+
+// syncJoinerFrom: the same against any implementation of the gossip service (a scripted peer, or a real node's own).
+func syncJoinerFrom(p protobufcompiled.GossipAPIServer) (book *accountant.AccountingBook, returned bool, release func()) {
 	lis := bufconn.Listen(1 << 22)
 	srv := grpc.NewServer()
 	protobufcompiled.RegisterGossipAPIServer(srv, p)
@@ -218,4 +225,117 @@ func c14RealTransport(w *core.WorkerCtx) {
 		}
 	}
 	_ = spice.Melange{}
+}
+
+// c14ServedByGossiper: the peer is a whole node and serves the DAG through its own gossip service. Its ledger changes
+// by every way a ledger changes - gossip in order, a vertex gossiped before its parent and admitted later by the orphan
+// buffer, proposals through its notary - and after every change a fresh node syncs from it through the real client: it
+// must report loaded and hold exactly the vertices the peer holds at that moment.
+func c14ServedByGossiper(w *core.WorkerCtx) {
+	r := w.R
+	rig, err := svc.New(4, 60, 2048)
+	if err != nil {
+		r.Inconc("cannot build the node: " + err.Error())
+		return
+	}
+	defer rig.Close()
+	ctx := context.Background()
+	u := rig.Users
+	syncs := 0
+	check := func(when string) bool {
+		want, err := ledger.TakeSnap(rig.Book)
+		if err != nil {
+			return false
+		}
+		w.Mark("c14 served by gossiper: sync %s", when)
+		book, returned, release := syncJoinerFrom(rig.Gossip)
+		defer release()
+		if book == nil {
+			return false
+		}
+		syncs++
+		r.Eval(1)
+		r.Count("c14_syncs_from_a_real_gossip_service", 1)
+		r.Nontriv("served-by-gossiper/" + when)
+		if !returned {
+			r.Violate("C14", "sync-failed/served-by-gossiper", "the sync "+when+" did not return within 30 s", nil)
+			return false
+		}
+		got, err := ledger.TakeSnap(book)
+		if err != nil {
+			return false
+		}
+		if !book.DagLoaded() {
+			r.Violate("C14", "sync-failed/served-by-gossiper", fmt.Sprintf("the sync %s left the node not loaded (the peer holds %d vertices)", when, len(want.Live)), nil)
+			return false
+		}
+		for h := range want.Live {
+			if _, ok := got.Live[h]; !ok {
+				r.Violate("C14", "synced-ledger-differs/served-by-gossiper", fmt.Sprintf("after the sync %s the node misses vertex %s which the peer holds (peer %d vertices, node %d)", when, ledger.Hex(h), len(want.Live), len(got.Live)), nil)
+				return false
+			}
+		}
+		if len(got.Live) != len(want.Live) {
+			r.Violate("C14", "synced-ledger-differs/served-by-gossiper", fmt.Sprintf("after the sync %s the node holds %d vertices, the peer %d", when, len(got.Live), len(want.Live)), nil)
+			return false
+		}
+		return true
+	}
+	send := func(v *accountant.Vertex) {
+		rig.Flash.RemoveAddress(string(v.Hash[:]))
+		rig.Gossip.GossipVrx(ctx, &protobufcompiled.VrxMsgGossip{Vertex: gossip.VerifVertexToProtoVertex(v)})
+	}
+	tipOf := func() (ledger.H, uint64) {
+		s, _ := ledger.TakeSnap(rig.Book)
+		var tip ledger.H
+		var wgt uint64
+		for h := range s.Leaves {
+			if v, ok := s.Vertex(h); ok && v.Weight >= wgt {
+				tip, wgt = h, v.Weight
+			}
+		}
+		return tip, wgt
+	}
+	if !check("of the fresh ledger") {
+		return
+	}
+	for round := 0; round < w.Pick(2, 6); round++ {
+		// gossip in order
+		tip, wgt := tipOf()
+		t1 := ledger.ForgeTrx(u[0], u[1].Addr, fmt.Sprintf("in order %d", round), []byte("c"), spice.Melange{}, time.Now().Add(-time.Minute))
+		v1 := ledger.ForgeVertex(rig.PeerAct[0], t1, tip, tip, wgt+1, time.Now().Add(-time.Second))
+		send(&v1)
+		if !check("after a vertex gossiped in order") {
+			return
+		}
+		// child before parent: parked; the parent; a sync; the orphan buffer admits the child; a sync
+		pt := ledger.ForgeTrx(u[0], u[2].Addr, fmt.Sprintf("parent %d", round), []byte("p"), spice.Melange{}, time.Now().Add(-time.Minute))
+		pv := ledger.ForgeVertex(rig.PeerAct[1], pt, v1.Hash, v1.Hash, wgt+2, time.Now().Add(-time.Second))
+		ct := ledger.ForgeTrx(u[0], u[3].Addr, fmt.Sprintf("child %d", round), []byte("c"), spice.Melange{}, time.Now().Add(-time.Minute))
+		cv := ledger.ForgeVertex(rig.PeerAct[0], ct, pv.Hash, pv.Hash, wgt+3, time.Now().Add(-time.Second))
+		send(&cv)
+		send(&pv)
+		if !check("after the parent of a parked vertex arrived") {
+			return
+		}
+		for k := 0; k < 200; k++ {
+			if _, err := rig.Book.ReadVertex(ctx, cv.Hash); err == nil {
+				break
+			}
+			rig.Book.VerifRetryOne(ctx)
+			time.Sleep(2 * time.Millisecond)
+		}
+		if !check("after the orphan buffer admitted the parked vertex") {
+			return
+		}
+		// a proposal through the notary
+		nt := ledger.ForgeTrx(u[0], u[1].Addr, fmt.Sprintf("notary %d", round), nil, spice.Melange{SupplementaryCurrency: uint64(1 + round)}, time.Now().Add(-time.Minute))
+		if p, err := transformers.TrxToProtoTrx(nt); err == nil {
+			rig.Notary.Propose(ctx, p)
+		}
+		if !check("after a proposal through the notary") {
+			return
+		}
+	}
+	_ = syncs
 }
